@@ -112,3 +112,6 @@ Fixpoint json_mentions (needle : string) (j : json) : bool :=
   | JArr l => existsb (json_mentions needle) l
   | JObj kvs => existsb (fun kv => contains needle (fst kv) || json_mentions needle (snd kv)) kvs
   | _ => false end.
+
+(* used by the term printer for very long integer literals (Horner form over 200-digit chunks) *)
+Definition pow10_200 : Z := Z.pow 10 200.
